@@ -162,6 +162,14 @@ def handle (line : String) : List String :=
        | some v => "B " ++ v.str
        | none => "B crash"]
     | _, _ => ["X bad-e2o-op"]
+  | ["E2OS", mode, hex] =>
+    -- events_to_objs over the events a stream decode shows (also the partial list of a decode that raises)
+    match bytesOfHex hex with
+    | some inp =>
+      let run := marshalRun (mode == "S") Generated.msgTables .stream inp
+      let r := e2oStream Generated.msgTables none (separateEvents (run.events.map (·.2)) [])
+      r.1.map (fun v => "O " ++ v.str) ++ (if r.2 then ["O crash"] else [])
+    | none => ["X bad-e2os-op"]
   | ["MSPEC", ty, cc, enc, hex] =>
     -- is this message well-formed in the sense of `specCommand` / `specResponse` / `specStream`, and do the bytes and
     -- events the specification dictates coincide with the input and with the strict decode of the model?
